@@ -1665,6 +1665,10 @@ def _cmp_fixfull(ctx, c, r, m, ts_, ys_, niter):
                     {kk: m[kk] for kk in ("dropouts", "outtimes", "spikes", "alldrops")})
     if ds:
         if niter is not None and r["niter"] != niter:
+            pm = _delspikes_params(ds)
+            if not c.get("spike_exact") and pm[0] != "simple" and ((pm[5] is None and pm[4] == 0) or (pm[5] is not None and pm[5] <= 0)):
+                ctx.skip("despike: no positive threshold, statistics not exact - flat windows are decided by rounding noise")
+                return None
             return ("fixtime-full-despike-niter", r["niter"], niter)
     if r["tp"] != m["tp"]:
         return ("fixtime-full-tp", r["tp"][:12], m["tp"][:12])
